@@ -102,14 +102,24 @@ impl Slicing {
             .map(|i| i as isize);
         Ok(start)
     }
+
+    /// Converts an optional bound to `slyce::Index` without negating it as `isize`
+    /// (`slyce`'s own `From<isize>` overflows for `isize::MIN`).
+    fn to_index(index: Option<isize>) -> slyce::Index {
+        match index {
+            None => slyce::Index::Default,
+            Some(index) if index < 0 => slyce::Index::Tail(index.unsigned_abs()),
+            Some(index) => slyce::Index::Head(index as usize),
+        }
+    }
 }
 
 impl Exec for Slicing {
     fn exec(&self, interpreter: &mut Interpreter) -> ExecResult {
         let lhs = self.lhs.exec(interpreter)?;
 
-        let start = Slicing::exec_index(&self.start, interpreter)?.into();
-        let end = Slicing::exec_index(&self.stop, interpreter)?.into();
+        let start = Slicing::to_index(Slicing::exec_index(&self.start, interpreter)?);
+        let end = Slicing::to_index(Slicing::exec_index(&self.stop, interpreter)?);
         let step = Slicing::exec_index(&self.step, interpreter)?;
 
         let s = slyce::Slice { start, end, step };
